@@ -393,14 +393,23 @@ def run_impl(case):
                 for k in bad:
                     post = at_failure.get(k) != exp.get(k)      # the item was changed AFTER the failed save
                     if post:
-                        sig = "C18/retry-loses-post-failure-change/%s/%s" % (mclass, k[0])
+                        how = ""
+                        if k[0] == "layers":
+                            # what kind of later change got lost
+                            if k not in exp:
+                                how = "/deleted-still-on-disk" if k[-1] != "<info>" else "/layer-removed-still-on-disk"
+                            elif k not in got:
+                                how = "/added-missing-on-disk"
+                            else:
+                                how = "/layer-info" if k[-1] == "<info>" else "/glyph-content"
+                        sig = "C18/retry-loses-post-failure-change/%s/%s%s" % (mclass, k[0], how)
                     else:
                         own = "at-own-step" if OWN_STEP.get(k[0]) and step in OWN_STEP[k[0]] else "after-later-step"
                         sig = "C18/retry-loses-changes/%s/%s/%s" % (mclass, k[0], own)
                     if sig in seen:
                         continue
                     seen.add(sig)
-                    viol.append(dict(rec, clause=sig.rsplit("/", 3)[0] if post else "C18/retry-loses-changes", signature=sig,
+                    viol.append(dict(rec, clause="C18/retry-loses-post-failure-change" if post else "C18/retry-loses-changes", signature=sig,
                                      item=list(k), expected=str(exp.get(k))[:200], observed=str(got.get(k))[:200]))
             except Exception as e:
                 viol.append(dict(rec, clause="C18/retry-raises",
